@@ -90,7 +90,7 @@ class Config:
         self.ns = {n: getattr(m, n + sfx) for n in ("union", "intersection", "difference")}
         self.code = {op: compile(src, op, "exec") for op, (_, src) in OPS.items()}
         self.cache = {}
-        self.fail, self.evals, self.nontrivial = {}, 0, 0
+        self.fail, self.evals, self.nontrivial, self.samples = {}, 0, 0, []
 
     def build(self, kind, A, side):
         """A fresh operand of `kind` holding exactly the keys A (sorted tuple)."""
@@ -236,6 +236,11 @@ class Config:
         # --- operands that are not the in-place target are never modified
         ok_l = inplace or self.unmodified(l, lk, A, "l")
         ok_r = rk == "self" or self.unmodified(r, rk, B, "r")
+        if len(self.samples) < 2 and len(A) == 3 and len(B) == 2 and (op, lk, rk) in (
+                ("difference", "BTree", "listdup"), ("ixor", "TreeSet", "gen")):
+            self.samples.append({"case": "%s %s: %s" % (self.fam, self.impl, OPS[op][1]),
+                                 "l": "%s %r" % (lk, self.snapshot(lk, A, "l")), "r": "%s %r" % (rk, list(self.build(rk, B, "r"))),
+                                 "res": "%s %r" % (type(res).__name__, items if mapping else ks)})
         if not (ok_l and ok_r):
             bad("operand-modified", "the %s operand was modified" % ("left" if not ok_l else "right"), exp)
             self.drop(lk, A, rk, B)
@@ -259,7 +264,7 @@ def run_config(args):
                 if skipA.get(lk) or skipB.get(rk):
                     continue
                 c.case(op, lk, rk, A, B)
-    return c.evals, c.nontrivial, [(f, n) for f, _, n in c.fail.values()]
+    return c.evals, c.nontrivial, [(f, n) for f, _, n in c.fail.values()], c.samples
 
 
 def main():
@@ -286,7 +291,9 @@ def main():
     jobs = [(fam, impl, nkeys, sizes) for impl in ("py", "c") for fam in H.fams()]
     merged = {}                                     # one Failure per key: first case + where else it fired
     with cf.ProcessPoolExecutor(max_workers=min(16, len(jobs))) as ex:
-        for (fam, impl, _, _), (ev, nt, fails) in zip(jobs, ex.map(run_config, jobs)):
+        for (fam, impl, _, _), (ev, nt, fails, samples) in zip(jobs, ex.map(run_config, jobs)):
+            if fam == H.fams()[-1]:
+                s.samples += samples[:1] if impl == "py" else samples[1:2]   # one measured case per implementation
             s.evaluations += ev
             s.distinct_nontrivial += nt
             for f, n in fails:
@@ -294,10 +301,6 @@ def main():
     for f, where in merged.values():
         f.desc += "  [" + ", ".join(where) + "]"
         s.failures.append(f)
-    s.samples = [{"op": "difference(l, r)", "l": "IIBTree {-2**31: 1, 1: 2, 2: 3} (3 leaves)", "r": "[2, 1, 2] (list with a duplicate)",
-                  "contract": "IIBucket, new, items == [(-2**31, 1)], len/membership agree, l and r unmodified"},
-                 {"op": "l ^= r", "l": "OOTreeSet {0, 1, 2}", "r": "generator 2, 3, 1",
-                  "contract": "returns l, keys == [0, 3], _check() passes"}]
     write_standin(a.out, s)
 
 
